@@ -211,6 +211,17 @@ static void case_tree(vrng *r)
         }
         vw_count("reserialize_after_put", 3);
     }
+#ifdef BINSON_PARSER_WITH_PRINT
+    if (vrn(r, 8) == 0) {
+        /* toStr(): text for objects the wrapper's 10-level parser can print, an empty string beyond - and it must come back */
+        int lv = 1 + (int)vrn(r, 14);
+        Binson inner; inner.put("v", BinsonValue((int64_t)lv));
+        for (int i = 1; i < lv; i++) { Binson outer; outer.put("n", inner); inner = outer; }
+        std::string txt = inner.toStr();
+        if ((lv <= 10) == txt.empty()) { char w2[120]; snprintf(w2, sizeof w2, "toStr() of an object nested %d levels returned %zu characters", lv, txt.size()); report("c15:toStr-depth", w2, NULL, 0); }
+        vw_count("toStr_calls", 1);
+    }
+#endif
     vw_count("trees", 1); vw_count("roundtrips", 3);
     vw_max("max_serialized_bytes", e.n);
     if (e.n > 1000) vw_count("above_first_try_buffer", 1);
